@@ -35,7 +35,8 @@ From TI Require Import lib.Term lib.Eff model.Screen model.ScreenUrwid model.Scr
   model.ScreenAbort model.ScreenWidget
   gen.ScreenSkel
   proofs.ScreenAlloc proofs.ScreenWalk proofs.ScreenGhost proofs.ScreenSync proofs.ScreenExamples
-  proofs.ScreenSessionProofs proofs.ScreenSessionSrc proofs.ScreenAbortProofs proofs.ScreenWidgetProofs.
+  proofs.ScreenSessionProofs proofs.ScreenSessionSrc proofs.ScreenAbortProofs proofs.ScreenWidgetProofs
+  model.ScreenBlend proofs.ScreenBlendProofs.
 From TI Require gen.ZIndexSrc proofs.ZIndexSrcTie.
 
 (** For EVERY history of widget constructions ([ANew], with any choice of the freed index
@@ -436,6 +437,71 @@ Theorem C18_short_circuited_redraw_after_failed_one_not_exact :
   /\ s_prev (w_scr (aw_w (run ex_ops2))) = fst (ex_canvas 1).
 Proof. exact exact_needs_undisturbed. Qed.
 Print Assumptions C18_short_circuited_redraw_after_failed_one_not_exact.
+
+(** ** Placements COUNTED, for every terminal identity (model/ScreenBlend.v)
+
+    "The placements present are exactly those of the canvas just drawn" is an equality of
+    MULTISETS: on a terminal implementing the kitty graphics protocol a second
+    transmit-and-display of the same image line at the same cell with the same z-index ADDS a
+    placement ([pstep], [pstep_id]: it stays until deleted); only Konsole "doesn't blend images
+    placed at the same location and z-index" (there it replaces the equal one: [place_id]).  The
+    [In p ... <-> In p ...] of [C18_no_ghosts] does not count.
+
+    For EVERY terminal identity for which the library claims support - identified as kitty with
+    any version >= 0.20.0 (so 0.20.0, 0.25.0, 0.25.1, 0.26 ...), Konsole, an unidentified terminal
+    with forced support -, every canvas whose image lines are [L] ([strips_wf]: non-empty, no line
+    covering the first cell of another, none twice - that is (W)), every terminal showing exactly
+    [L], counted, and EVERY redraw in which urwid re-sends rows holding lines of unchanged image
+    views ([R]: any lines of [L], any order, any number of times - the text beside the image
+    changed; no view vanished, so the screen sends no delete): with the widget's [blend] as the
+    code sets it (False everywhere but on Konsole) the terminal shows exactly [L] again, counted. *)
+Theorem C18_repaint_exact_for_every_identity : forall id L R t,
+  claims_support id = true ->
+  strips_wf L -> incl R L ->
+  (forall q, pcount q (t_plcs t) = pcount q L) ->
+  forall q, pcount q (t_plcs (pexec_id id t (repaint (code_blend id) R))) = pcount q L.
+Proof. exact repaint_exact_supported. Qed.
+Print Assumptions C18_repaint_exact_for_every_identity.
+
+(** The identity terminal is the terminal of the other theorems: off Konsole it IS [pexec false];
+    on Konsole its placements, counted, are those of [pexec true] with equal placements merged
+    ([norm] - what the correspondence compares, [plcs_exact]); a kitty image line of the session
+    model ([item_toks]) is [strip_toks] with the code's [blend]; [plcs_msame] decides equality
+    of counts. *)
+Theorem C18_identity_terminal_is_the_placement_terminal :
+  (forall id t ts, is_konsole id = false -> pexec_id id t ts = pexec false t ts)
+  /\ (forall ts q, pcount q (t_plcs (pexec_id IdKonsole pterm_init ts))
+                   = pcount q (norm IdKonsole (t_plcs (pexec true pterm_init ts))))
+  /\ (forall id it, i_kitty it = true -> p_h (i_plc it) = 1%Z ->
+        item_toks (is_konsole id) it = strip_toks (code_blend id) (i_plc it))
+  /\ (forall a b, plcs_msame a b = true <-> forall q, pcount q a = pcount q b).
+Proof. exact (conj pexec_id_stacking (conj konsole_is_dedup (conj item_toks_is_strip plcs_msame_iff))). Qed.
+Print Assumptions C18_identity_terminal_is_the_placement_terminal.
+
+(** [blend=False] must not depend on the terminal being IDENTIFIED as a recent kitty: with
+    "blend=False only if [_KITTY_VERSION] > 0.25.0" ([blend_unless_new_kitty];
+    [_KITTY_VERSION] is [()] unless the terminal was identified as kitty) an unidentified terminal
+    with forced support and kitty 0.20.0 - 0.25.0 - all supported - keep [blend=True]: every
+    re-send of an unchanged image line's row stacks one more placement (2 after one repaint, 4
+    after three; the canvas has 1), invisible to a comparison of placements as sets
+    ([plcs_same] = true) and seen by the counted one ([plcs_exact] = false); kitty >= 0.25.1 and
+    Konsole behave as with the code. *)
+Theorem C18_blend_by_kitty_version_refuted :
+  let p := mk_plc 0 8 16 1 1 in
+  claims_support IdForced = true /\ claims_support (IdKitty 0 20 0) = true /\ claims_support (IdKitty 0 25 0) = true
+  /\ blend_unless_new_kitty IdForced = true /\ blend_unless_new_kitty (IdKitty 0 20 0) = true
+  /\ blend_unless_new_kitty (IdKitty 0 25 0) = true
+  /\ blend_unless_new_kitty (IdKitty 0 25 1) = false /\ blend_unless_new_kitty (IdKitty 0 26 0) = false
+  /\ blend_unless_new_kitty IdKonsole = code_blend IdKonsole
+  /\ (forall id, In id [IdForced; IdKitty 0 20 0; IdKitty 0 25 0] ->
+        pcount p (t_plcs (pexec_id id ex_t (repaint (blend_unless_new_kitty id) [p]))) = 2
+        /\ pcount p (t_plcs (pexec_id id ex_t (repaint (blend_unless_new_kitty id) [p; p; p]))) = 4
+        /\ pcount p ex_L = 1
+        /\ plcs_same (t_plcs (pexec_id id ex_t (repaint (blend_unless_new_kitty id) [p; p; p]))) ex_L = true
+        /\ plcs_exact id (t_plcs (pexec_id id ex_t (repaint (blend_unless_new_kitty id) [p; p; p]))) ex_L = false
+        /\ plcs_exact id (t_plcs (pexec_id id ex_t (repaint (code_blend id) [p; p; p]))) ex_L = true).
+Proof. exact blend_true_repaint_refuted. Qed.
+Print Assumptions C18_blend_by_kitty_version_refuted.
 
 (** *** the z-index allocator tied to the source as a theorem (T): [UrwidImage._ti_get_z_index]
     (counter branch: exhaustion test and successor 1, -1, 2, -2, ...) is translated from
